@@ -6,6 +6,8 @@ import (
 	"io"
 	"net"
 	"sync"
+	"sync/atomic"
+	"time"
 
 	proto4 "go.sia.tech/core/rhp/v4"
 )
@@ -40,11 +42,21 @@ type script struct {
 	rawLen func() int
 	handle func(i int, in inMsg) outMsg
 
+	// stall > 0: a watchdog closes both sides when no byte has moved in either direction for
+	// that long (a host that sends a message promising more bytes than it delivers, and then
+	// goes silent, would otherwise keep the renter waiting for its own deadline).
+	stall time.Duration
+
 	mu        sync.Mutex
 	captured  bytes.Buffer // renter -> host bytes
 	delivered int          // number of host messages forwarded (fully written) to the renter
+	consumed  []int        // bytes of each forwarded message the renter actually read
 	hostErrs  []string
+	stalled   bool
+	last      atomic.Int64 // unix nanos of the last byte moved
 }
+
+func (sc *script) touch() { sc.last.Store(time.Now().UnixNano()) }
 
 func (sc *script) request() []byte {
 	sc.mu.Lock()
@@ -63,11 +75,36 @@ func encodeResponse(o proto4.Object) []byte {
 // proxy implements memnet.Proxy.
 func (sc *script) proxy(_ int, client, server net.Conn) {
 	done := make(chan struct{})
+	sc.touch()
+	finished := make(chan struct{})
+	defer close(finished)
+	if sc.stall > 0 {
+		go func() {
+			tick := time.NewTicker(sc.stall / 10)
+			defer tick.Stop()
+			for {
+				select {
+				case <-finished:
+					return
+				case <-tick.C:
+					if time.Since(time.Unix(0, sc.last.Load())) > sc.stall {
+						sc.mu.Lock()
+						sc.stalled = true
+						sc.mu.Unlock()
+						client.Close()
+						server.Close()
+						return
+					}
+				}
+			}
+		}()
+	}
 	go func() { // renter -> host, verbatim
 		defer close(done)
 		buf := make([]byte, 64<<10)
 		for {
 			n, err := client.Read(buf)
+			sc.touch()
 			if n > 0 {
 				sc.mu.Lock()
 				sc.captured.Write(buf[:n])
@@ -107,11 +144,21 @@ func (sc *script) proxy(_ int, client, server net.Conn) {
 				in.ioErr = err
 			}
 		}
+		sc.touch()
 		out := sc.handle(i, in)
 		if len(out.bytes) > 0 {
-			if _, err := client.Write(out.bytes); err != nil {
+			n, err := client.Write(out.bytes)
+			sc.touch()
+			sc.mu.Lock()
+			sc.consumed = append(sc.consumed, n)
+			sc.mu.Unlock()
+			if err != nil {
 				break
 			}
+		} else {
+			sc.mu.Lock()
+			sc.consumed = append(sc.consumed, -1) // nothing offered (a message truncated to nothing)
+			sc.mu.Unlock()
 		}
 		if out.cut {
 			break
